@@ -485,6 +485,13 @@ def decode_resultset(pkts: List[bytes], caps: int) -> Dict[str, Any]:
         n, i = rd_lenenc(pkts[0], 0)
     except (ValueError, IndexError, struct.error):
         raise Bad("column count packet expected, got %r" % pkts[0][:40])
+    if int(caps) & int(C.CLIENT_OPTIONAL_RESULTSET_METADATA):
+        # negotiated: the column count is followed by one byte, 0 = RESULTSET_METADATA_NONE (no definitions follow), 1 = FULL
+        if i + 1 != len(pkts[0]) or pkts[0][i] not in (0, 1):
+            raise Bad("CLIENT_OPTIONAL_RESULTSET_METADATA negotiated: column count packet %r lacks a valid metadata_follows byte" % pkts[0][:12])
+        if pkts[0][i] == 0:
+            raise Bad("metadata_follows = NONE is not requested by this client (resultset_metadata is FULL)")
+        i += 1
     if i != len(pkts[0]) or n == 0:
         raise Bad("column count packet")
     if len(pkts) < 1 + n:
